@@ -7,5 +7,8 @@ CONSTANTS
   ProbeBlocks <- MCProbeBlocks
   Variant = "asbuilt"
   MaxCalls = 1
+  MaxEdits = 0
+  EditCoefs <- MCEditCoefs
+  EditNames <- MCEditNames
 INVARIANT TypeOK
 CHECK_DEADLOCK FALSE
